@@ -845,11 +845,151 @@ fn check_purge(case: &PurgeCase) -> Case {
     Case::pass(n_pase >= 2).labels(labels)
 }
 
+// ------------------------------------------------------------------------------------------
+// eviction: a full session table and a request for one more session. Sessions that carry a live
+// exchange are never evicted (expired or not); with at least one idle session the request succeeds.
+
+#[derive(Debug, Clone, Serialize, Deserialize)]
+struct EvictCase {
+    /// per session of the full table: (kind 1 = PASE / 2 = CASE, holds a live exchange, expired)
+    table: Vec<(u8, bool, bool)>,
+    sched: Option<u64>,
+}
+
+fn evict_strategy() -> impl Strategy<Value = EvictCase> {
+    (
+        prop::collection::vec(
+            (prop_oneof![1 => Just(1u8), 3 => Just(2u8)], prop::bool::weighted(0.75), prop::bool::weighted(0.3)),
+            16,
+        ),
+        prop_oneof![1 => Just(None), 2 => any::<u64>().prop_map(Some)],
+    )
+        .prop_map(|(table, sched)| EvictCase { table, sched })
+}
+
+fn check_evict(case: &EvictCase) -> Case {
+    use rs_matter::transport::session::ReservedSession;
+    vh::sim::reset_universe();
+    let net = Net::new(1);
+    let c = mk_crypto(11);
+    let m = new_matter(5540);
+    let mut ids: Vec<u32> = Vec::new();
+    for (i, (k, _, _)) in case.table.iter().enumerate() {
+        let key = [i as u8 + 1; 16];
+        let kind = if *k == 1 { SessKind::Pase } else { SessKind::Case };
+        // every CASE session on a fabric index of its own, so that one can be expired alone
+        match vh::sim::node::plant_half(
+            &m,
+            &c,
+            kind,
+            if *k == 1 { 0 } else { 0x1000 + i as u64 },
+            if *k == 1 { 0 } else { 0x2000 + i as u64 },
+            0x100 + i as u16,
+            0x200 + i as u16,
+            vh::sim::net::alien_addr(i),
+            &key,
+            &key,
+            i as u8 + 1,
+            Default::default(),
+        ) {
+            Ok(id) => ids.push(id),
+            // the table may be smaller than 16 in another build: work with what fits
+            Err(_) => break,
+        }
+    }
+    if ids.len() < 2 {
+        return Case::inconclusive("could not plant sessions");
+    }
+    // full? (otherwise the request trivially succeeds: still a valid, if dull, case)
+    let full = ReservedSession::reserve_now(&m, &c).is_err();
+    // live exchanges first (an expired session refuses new ones), then the expiry marks
+    let mut held = Vec::new();
+    let mut busy: Vec<u32> = Vec::new();
+    for (i, id) in ids.iter().enumerate() {
+        if case.table[i].1 {
+            match Exchange::initiate_for_session(&m, &c, *id) {
+                Ok(e) => {
+                    held.push(e);
+                    busy.push(*id);
+                }
+                Err(e) => return Case::inconclusive(format!("initiate: {:?}", e.code())),
+            }
+        }
+    }
+    let mut expired: Vec<u32> = Vec::new();
+    for (i, id) in ids.iter().enumerate() {
+        if case.table[i].2 {
+            // (only CASE sessions are expired here: each lives on a fabric index of its own)
+            if case.table[i].0 == 2 {
+                let fab = std::num::NonZeroU8::new(i as u8 + 1).unwrap();
+                m.with_state(|st| st.verif_sessions_mut().remove_for_fabric(fab, Some(*id)));
+                expired.push(*id);
+            }
+        }
+    }
+    // time passes: the sessions were not all used in the very tick in which the request arrives
+    clock::advance_to(clock::now() + 50 * MS);
+    let before = sessions(&m);
+    let idle_exists = before.iter().any(|s| !s.reserved && s.exchanges.iter().flatten().count() == 0);
+    let outcome: RefCell<Option<Result<(), String>>> = RefCell::new(None);
+    {
+        let mut ex = Exec::new(match case.sched {
+            None => Sched::Fifo,
+            Some(s) => Sched::Seeded(s),
+        });
+        ex.add_time_source(&net);
+        ex.spawn("dev.run", async {
+            let _ = m.run(&c, net.end(0), net.end(0), NoNetwork).await;
+        });
+        {
+            let (m, c, out) = (&m, &c, &outcome);
+            ex.spawn("reserve", async move {
+                let r = ReservedSession::reserve(m, c).await;
+                *out.borrow_mut() = Some(match r {
+                    Ok(s) => {
+                        drop(s);
+                        Ok(())
+                    }
+                    Err(e) => Err(format!("{:?}", e.code())),
+                });
+            });
+        }
+        if ex.run_for(10 * SEC) == Stop::PollLimit {
+            return Case::inconclusive("poll watchdog");
+        }
+    }
+    let after = sessions(&m);
+    // E1: no session with a live exchange was evicted
+    for id in &busy {
+        if !after.iter().any(|s| s.id == *id) {
+            let was_expired = expired.contains(id);
+            return Case::fail(
+                if was_expired { "evicted:expired-session-with-live-exchange" } else { "evicted:session-with-live-exchange" },
+                format!("session {id} carried a live exchange (expired: {was_expired}) and was evicted to make room for a new session; table before: {:?}", before.iter().map(|s| (s.id, s.expired, s.exchanges.iter().flatten().count())).collect::<Vec<_>>()),
+            );
+        }
+    }
+    // E2: with an idle session the request succeeds
+    let out = outcome.borrow().clone();
+    if full && idle_exists && !matches!(out, Some(Ok(()))) {
+        return Case::fail(
+            "full-table:request-refused-although-a-session-was-idle",
+            format!("outcome {out:?}; table before: {:?}", before.iter().map(|s| (s.id, s.expired, s.exchanges.iter().flatten().count())).collect::<Vec<_>>()),
+        );
+    }
+    drop(held);
+    let mut labels = vec![if idle_exists { "idle-session-exists" } else { "all-busy" }.to_string()];
+    if busy.iter().any(|b| expired.contains(b)) {
+        labels.push("expired-and-busy".into());
+    }
+    Case::pass(full && !busy.is_empty()).labels(labels)
+}
+
 fn main() {
     let mut run = Run::new(
         "C20",
         "exploration",
-        "sequences of 1-27 session-establishment attempts against one device from four nodes (complete PASE/CASE, wrong passcode, initiator cancels after message k, initiator goes silent after message k, garbage in message k, concurrent starts), device handler tasks cancelled at generated instants, one established session kept in use by an open exchange; after the churn the clock advances 200 s and the session/exchange tables of all nodes are inspected, then a fresh node runs probe handshakes (PASE, CASE, PASE). Second sub-check: Exchange::initiate futures dropped while the single-slot mDNS resolve rendezvous is Requested/InFlight, then a legitimate resolve. Third sub-check (pase-purge): real session tables of every layout (1-14 unsecured/PASE/CASE sessions, some removed first) go through the purge of PASE sessions that runs on CommissioningComplete / RevokeCommissioning / fail-safe expiry, with or without a session preserved for the in-flight response; non-trivial: at least two PASE sessions in the table. Non-trivial: the device's session table reached capacity, or attempts were abandoned at >= 3 different steps (churn); at least one waiter dropped (rendezvous); distinct = distinct serialized case",
+        "sequences of 1-27 session-establishment attempts against one device from four nodes (complete PASE/CASE, wrong passcode, initiator cancels after message k, initiator goes silent after message k, garbage in message k, concurrent starts), device handler tasks cancelled at generated instants, one established session kept in use by an open exchange; after the churn the clock advances 200 s and the session/exchange tables of all nodes are inspected, then a fresh node runs probe handshakes (PASE, CASE, PASE). Second sub-check: Exchange::initiate futures dropped while the single-slot mDNS resolve rendezvous is Requested/InFlight, then a legitimate resolve. Third sub-check (pase-purge): real session tables of every layout (1-14 unsecured/PASE/CASE sessions, some removed first) go through the purge of PASE sessions that runs on CommissioningComplete / RevokeCommissioning / fail-safe expiry, with or without a session preserved for the in-flight response; non-trivial: at least two PASE sessions in the table. Fourth sub-check (eviction): a full table of PASE/CASE sessions, each with or without a live exchange and expired or not, and a request for one more session: sessions carrying a live exchange are never evicted, and with an idle session the request succeeds; non-trivial: the table was full and at least one session was busy. Non-trivial: the device's session table reached capacity, or attempts were abandoned at >= 3 different steps (churn); at least one waiter dropped (rendezvous); distinct = distinct serialized case",
     );
     run.assume("default table sizes (16 sessions, 5 exchanges per session); the max-sessions-3 build of the design is not part of the quick tier");
     run.assume("idle unsecured (plaintext) sessions without exchanges may linger until evicted, as in the CHIP SDK's unauthenticated-session pool: they are reclaimable on demand, which the probe handshakes verify");
@@ -860,5 +1000,7 @@ fn main() {
     run.prop("resolve-rendezvous", n, resolve_strategy, check_resolve);
     let n = run.cases(200_000, 3_000_000);
     run.prop("pase-purge", n, purge_strategy, check_purge);
+    let n = run.cases(20_000, 1_000_000);
+    run.prop("eviction", n, evict_strategy, check_evict);
     run.finish();
 }
